@@ -168,6 +168,8 @@ def eScheduled : Nat := 5    -- 1 iff the scheduler hands out a different scenar
 def eNmneVar : Nat := 6      -- 1 iff the scheduled scenarios differ in their nmne_config (then it is a function of the episode)
 def eBuildRng : Nat := 7     -- 1 iff `from_config` draws from the global generators: ANY scripted agent (start step / start node of periodic
                              -- and TAP agents; a probabilistic agent draws the seed of its private generator from numpy's global one)
+def eOwnRng : Nat := 8       -- `self._generator_state`: where this environment's last operation left `random` / `numpy.random` (F-11 repair)
+def eHasOwn : Nat := 9       -- 1 iff `_generator_state` is set (after the first operation, i.e. after `__init__`)
 /-- game attributes -/
 def lState : Nat := 0        -- simulation state digest
 def lStep : Nat := 1         -- step counter
@@ -200,13 +202,38 @@ def buildGame : List Cmd :=
     -- the first observation: the NIC state carries NMNE counters iff capturing is in force for this game's network
     .emit (.add (.loc lState) nmneInForce) ]
 
-/-- `PrimaiteGymEnv.__init__` with a configured seed: seed, io settings into SIM_OUTPUT, build. -/
-def constructProg : List Cmd :=
+/-! #### the decorator `own_generator_state` (F-11 repair, session/environment.py)
+
+Every environment runs `__init__` / `reset` / `step` on its OWN state of the process-wide generators: the wrapper puts the state its last
+operation left (`self._generator_state`, here `eOwnRng`) back in place before the operation when there is one, and records the state
+afterwards (`finally`). Gen/OwnGeneratorState regenerates the wrapper's shape and where it is applied (`C04_gen_own_generator_state`). -/
+
+/-- the wrapper's prologue AS WRITTEN: `own = self.__dict__.get("_generator_state"); if own is not None: random.setstate(own[0]); …` -/
+def ownInCode : List Cmd := [ .setGlob gRng (.ite (.env eHasOwn) (.env eOwnRng) (.glob gRng)) ]
+
+/-- the prologue of an operation of a CONSTRUCTED environment (`_generator_state` is set by `__init__`'s own epilogue and never removed:
+`C04_has_own_after_construct`, `C04_own_in_code_eq`): the own state is installed unconditionally -/
+def ownIn : List Cmd := [ .setGlob gRng (.env eOwnRng) ]
+
+/-- the wrapper's epilogue: `self.__dict__["_generator_state"] = (random.getstate(), np.random.get_state())` -/
+def ownOut : List Cmd := [ .setEnv eOwnRng (.glob gRng), .setEnv eHasOwn (.lit 1) ]
+
+/-- body of `PrimaiteGymEnv.__init__` with a configured seed: seed, io settings into SIM_OUTPUT, build. -/
+def constructBody : List Cmd :=
   [ .setGlob gRng .arg, .setGlob gSimOutput (.env eIo), .setEnv eEpisode (.lit 0) ] ++ buildGame
 
-/-- `__init__` of a scenario without `game.seed`: `set_random_seed(None, False)` returns without seeding -/
-def constructProgNoSeed : List Cmd :=
+/-- body of `__init__` of a scenario without `game.seed`: `set_random_seed(None, False)` returns without seeding -/
+def constructBodyNoSeed : List Cmd :=
   [ .setGlob gSimOutput (.env eIo), .setEnv eEpisode (.lit 0) ] ++ buildGame
+
+/-- `PrimaiteGymEnv(cfg)` with a configured seed. A new object has no `_generator_state` (`own is None`): the prologue does nothing. -/
+def constructProg : List Cmd := constructBody ++ ownOut
+
+/-- `PrimaiteGymEnv(cfg)` without `game.seed`: the construction starts from wherever the process-wide generators are (by design) -/
+def constructProgNoSeed : List Cmd := constructBodyNoSeed ++ ownOut
+
+/-- BEFORE the F-11 repair (NOT the code any more): the operations without the decorator -/
+def constructProgShared : List Cmd := constructBody
 
 /-- the statements of `PrimaiteGymEnv.reset` in front of the rebuild (after the seeding) -/
 def resetHead : List Cmd :=
@@ -216,15 +243,23 @@ def resetHead : List Cmd :=
     .setEnv eEpisode (.add (.env eEpisode) (.lit 1)),
     .setGlob gPcapLoggers (.lit 0) ]
 
-/-- `PrimaiteGymEnv.reset(seed = arg)` -/
-def resetProg : List Cmd := [ .setGlob gRng .arg ] ++ resetHead ++ buildGame
+/-- body of `PrimaiteGymEnv.reset(seed = arg)` -/
+def resetBody : List Cmd := [ .setGlob gRng .arg ] ++ resetHead ++ buildGame
 
-/-- `reset()` without a seed -/
-def resetProgNoSeed : List Cmd := resetHead ++ buildGame
+/-- `PrimaiteGymEnv.reset(seed = arg)`: own state in, the seeding (INSIDE the wrapped operation, so it wins), rebuild, own state out -/
+def resetProg : List Cmd := ownIn ++ resetBody ++ ownOut
 
-/-- `PrimaiteGymEnv.step(arg)` as the code is: NICs and the NIC observation follow the NMNE settings in force for their own game's
-network; scripted agents and red applications draw from the global RNG, which `step` does not re-seed (F-11). -/
-def stepProg : List Cmd :=
+/-- `reset()` without a seed: the episode continues the ENVIRONMENT'S OWN generator stream -/
+def resetProgNoSeed : List Cmd := ownIn ++ resetHead ++ buildGame ++ ownOut
+
+/-- BEFORE the F-11 repair (NOT the code any more) -/
+def resetProgShared : List Cmd := resetBody
+def resetProgNoSeedShared : List Cmd := resetHead ++ buildGame
+
+/-- body of `PrimaiteGymEnv.step(arg)`: NICs and the NIC observation follow the NMNE settings in force for their own game's
+network; scripted agents and red applications draw from the process-wide generators, which `step` does not re-seed. BEFORE the F-11
+repair this WAS the operation (`stepProgShared`): the draws came from wherever any other user of the process had left the generators. -/
+def stepProgShared : List Cmd :=
   [ .setLoc lStep (.add (.loc lStep) (.lit 1)),
     .setLoc lState (.add (.add (.loc lState) .arg) nmneInForce),
     .setLoc lState (.add (.loc lState) (.ite (.env eUsesRng) (.glob gRng) (.lit 0))),
@@ -233,8 +268,18 @@ def stepProg : List Cmd :=
     .emit (.add (.loc lState) nmneInForce),
     .emit (.loc lStep) ]
 
+/-- `PrimaiteGymEnv.step(arg)` as the code is (F-11 repaired): the body runs on the environment's own generator state -/
+def stepProg : List Cmd := ownIn ++ stepProgShared ++ ownOut
+
+/-- the operations exactly as written, with the wrapper's `if own is not None` test (used only to show that the test is decided by
+construction: `C04_own_in_code_eq`) -/
+def stepProgCode : List Cmd := ownInCode ++ stepProgShared ++ ownOut
+def resetProgCode : List Cmd := ownInCode ++ resetBody ++ ownOut
+def resetProgNoSeedCode : List Cmd := ownInCode ++ resetHead ++ buildGame ++ ownOut
+def constructProgCode : List Cmd := ownInCode ++ constructBody ++ ownOut
+
 /-- `step` of an instance none of whose agents / applications draws from the global generators (`eUsesRng = 0`): the same program with the
-dead generator accesses removed. `stepProg` behaves like this one on such an instance (Props: `step_norng_eq`). -/
+dead generator accesses removed. the pre-repair `stepProgShared` behaves like this one on such an instance (Props: `step_norng_eq`). -/
 def stepProgNoRng : List Cmd :=
   [ .setLoc lStep (.add (.loc lStep) (.lit 1)),
     .setLoc lState (.add (.add (.loc lState) .arg) nmneInForce),
